@@ -26,6 +26,8 @@ EXPR_ERRORS = [
     ("method_this_print", "obj_with_print.p(1)"), ("nested_eq_types", '[[1, "a"]] == [[1, 2]]'),
     ("utf8_print_in_list", 'print(["first", "é"[0], "last"])'), ("utf8_print_in_object", 'print({"a": "first", "b": {"c": "é"[0:1]}})'),
     ("utf8_print_nested", 'print([1, [2, ["é"[1]]], 3])'),
+    ("eq_types_inside_alias", "ok_nested == [ok_nested]"), ("eq_types_alias_in_object", '{"k": ok_nested} == {"k": [ok_nested]}'),
+    ("ne_types_inside_alias", "[ok_nested, 1] != [[ok_nested], 1]"),
 ]
 
 STMT_ERRORS = [
@@ -67,7 +69,7 @@ POSITIONS = {
 }
 
 PRELUDE = ('fn two_params(a, b) {\n    return a\n}\nfn rest_params(a, ..r) {\n    return a\n}\nfn ident(x) {\n    return x\n}\n'
-           'fn ok_fn() {\n    return 1\n}\nok_list := [1, 2, 3]\nok_obj := {"a": 1}\nok_int := 1\nok_acc := 0\n'
+           'fn ok_fn() {\n    return 1\n}\nok_list := [1, 2, 3]\nok_obj := {"a": 1}\nok_int := 1\nok_acc := 0\nok_nested := [[1]]\n'
            'obj_with_print := {"p": print}\nprint("p0")\n')
 
 FIRST = re.compile(r"\At\.sd:(\d+):(\d+): (?:in '([^'\n]+)': )?([^\n]+)\n")
